@@ -33,10 +33,15 @@ def project(path, lines, names):
         if site == "store.open":
             lines.append(dict(ev="Open"))
             continue
+        if site == "sign.enter":
+            base = names.setdefault(e["key"][:96], "k%d" % len(names))
+            lines.append(dict(ev="G", g=e["gid"], b=base))
+            n += 1
+            continue
         if site not in ("store.fetch.exit", "store.store.exit", "store.batch.exit"):
             continue
         k, kind, v = decode(e["key"], e["val"], e["nil"])
-        key = names.setdefault((k, kind), "k%d%s" % (len(names), "a" if kind == "02" else "p"))
+        key = names.setdefault(k[:96], "k%d" % len(names)) + ("a" if kind == "02" else "p")
         if kind == "02":
             s, t = v if v else (-1, -1)
             rec = dict(s=s, t=t, p=-1)
@@ -83,7 +88,7 @@ def run_repo_tests(wd, max_events=4000):
     return lines, stats
 
 
-INVS = ["AtomicRMW", "ReadLatest", "Monotone"]
+INVS = ["AtomicRMW", "ReadLatest", "Monotone", "SignAfterStore"]
 
 
 def validate(lines, wd, name="StoreTrace"):
